@@ -1095,6 +1095,19 @@ func (t *tr) inlineCall(ins ssa.Instruction, callee *ssa.Function, args [][]stri
 	for a, e := range ct.escapes {
 		t.escapes[a] = e
 	}
+	// whatever the callee returns is from now on a value of the caller, which this function's own escape analysis does
+	// not follow (the call result carries no allocation site): treat every allocation that may be returned as escaped
+	for _, b := range callee.Blocks {
+		for _, ins := range b.Instrs {
+			if r, ok := ins.(*ssa.Return); ok {
+				for _, rv := range r.Results {
+					for a := range ct.taint[rv] {
+						t.escapes[a] = true
+					}
+				}
+			}
+		}
+	}
 	t.abstractf("callee %s has no contract: body inlined", shortName(callee.String()))
 	if len(ct.retInfo) == 0 {
 		// never returns (panics on every path): the rest of this block is unreachable
